@@ -262,6 +262,27 @@ for _p, _sw in (("C02", _order_sweep_c02), ("C04", _order_sweep_c04)):
     CLAIMS[_p]["technique"] += " + source-to-Gallina translator tie for pams/order.py (regenerated and re-proved every run)"
 
 
+def _state_tie():
+    import translated
+    return translated.state_tie()
+
+
+def _holdings_sweep_c05(seed, tier, cov):
+    import translated
+    return translated.holdings_sweep_c05(seed, tier, cov)
+
+
+CLAIMS["C05"]["ties"] = (_state_tie,)
+CLAIMS["C05"]["extra_checks"] = _holdings_sweep_c05
+CLAIMS["C05"]["technique"] += " + source-to-Gallina translator tie for Simulator._update_agents_for_execution (regenerated and re-proved every run)"
+CLAIMS["C05"]["text"] += (" Translator tie (harness/py2coq_state.py, fail-closed Python-ast -> Gallina over an explicit object store, coq/theories/StatePy.v): "
+                          "Simulator._update_agents_for_execution is REGENERATED from /repo's source on every run and coq/translated/StateC05Proofs.v is re-checked against the generated "
+                          "text: whenever the code's loop does not raise it leaves exactly the model's apply_fill_holdings folded over the fills (aliasing of buyer and seller included); it raises "
+                          "KeyError exactly when a party is unknown or does not hold the market's asset - the guard of the run-level conservation theorem - and under that guard it never raises. "
+                          "A change the translator cannot read, or one that breaks a theorem, is searched for a concrete failing call of the real method and otherwise reported with "
+                          "no-failing-input-found.")
+
+
 def c07_determinism(seed, tier, cov):
     """differential determinism test: each configuration is run in fresh processes under different interpreter hash seeds, with
     Python's and NumPy's global generators perturbed, and twice in one process; everything observable must hash the same"""
